@@ -28,7 +28,10 @@ Outcome ==
         LET cl == SelectSeq(events, LAMBDA e : e.k = 2 /\ (ek > Len(events) \/ e.t < Ev.t \/ (e.t = Ev.t /\ (pc \in {"rebalance", "exec", "execupd", "equity"}
                                                                                              \/ (pc = "failed" /\ allocs # << >> /\ allocs[Len(allocs)].t = Ev.t))))
                                                 /\ AssetSeq[n] \in UniverseAt(e.t))
-        IN  [i \in 1..Len(cl) |-> << cl[i].t, QuoteAt(frame[AssetSeq[n]], cl[i].t) >>]] >>
+        IN  [i \in 1..Len(cl) |-> << cl[i].t, QuoteAt(frame[AssetSeq[n]], cl[i].t) >>]],
+     \* the first rebalance whose top-N selection hinges on a tie that floating point may break either way (0 = none)
+     LET S == { i \in 1..Len(allocs) : allocs[i].amb }
+     IN  IF S = {} THEN 0 ELSE allocs[CHOOSE i \in S : \A j \in S : i <= j].t >>
 
 Report == pc \in {"done", "failed"} => PrintT(Outcome)
 =============================================================================
